@@ -22,7 +22,19 @@ class ExactNode(Node):
         """
         Initialise the servers
         """
-        return [Server(self, i + 1, Decimal("0.0")) for i in range(self.c)]
+        servers = [Server(self, i + 1, Decimal("0.0")) for i in range(self.c)]
+        for srvr in servers:
+            srvr.busy_time = Decimal("0.0")
+        return servers
+
+    def add_new_servers(self, num_servers):
+        """
+        Add appropriate amount of servers for the given shift
+        """
+        number_before = len(self.servers)
+        super().add_new_servers(num_servers)
+        for srvr in self.servers[number_before:]:
+            srvr.busy_time = Decimal("0.0")
 
     def increment_time(self, original, increment):
         """
